@@ -402,7 +402,9 @@ func TestC16(t *testing.T) {
 	rapid.Check(t, func(t *rapid.T) {
 		c := genC16(t)
 		fresh := gen.Pct(t, "fresh-process-differential", 15)
+		vstat.InFlight("C16", "history", c)
 		f, nt := oracleC16(c, fresh)
+		vstat.ClearInFlight("C16")
 		r.Eval()
 		r.Count("steps", len(c.Steps))
 		for _, st := range c.Steps {
